@@ -14,15 +14,12 @@ def handlePrio : List String → Option String
     let os ← mapOpt (fun o => match o.splitOn ":" with
       | [k, a, p] => do pure (k, (← unhex a), (← p.toNat?))
       | _ => none) (splitList ovs ";")
-    let sortedBins := bs.mergeSort (fun a b => nameLe a.1 b.1)
     let prioOf (bin name : List UInt8) : Nat :=
       match os.find? (fun (k, a, _) =>
         if k == "test-eq" then a == name else if k == "test-contains" then isInfix a name else a == bin) with
       | some (_, _, p) => p
       | none => 100
-    let tests : List PTest := sortedBins.flatMap fun (bin, names) =>
-      (names.mergeSort nameLe).map fun n => { binary := bin, name := n, priority := prioOf bin n }
-    let q := queue tests
+    let q := queue (iterOrder bs prioOf)
     pure (if q.isEmpty then "." else ",".intercalate (q.map fun t => s!"{hex t.binary}/{hex t.name}"))
   | _ => none
 
